@@ -601,6 +601,14 @@ def arms_of(body, adt, place_pred=None):
     """{variant: [(edge, region)]} over all switches on `adt` in body.  Nested switches on the same value
     (rustc sometimes splits a match) are merged per variant."""
     out = {}
+    # an enum with a single variant (feature-gated siblings compiled out) is matched without a switch
+    try:
+        vs = [v['name'] for v in body.prog.adt(adt)['variants']]
+    except Exception:
+        vs = []
+    if len(vs) == 1 and not enum_switches(body, adt, place_pred):
+        body._ensure()
+        return {vs[0]: [(body.entry, set(body.reachable))]}
     for i in enum_switches(body, adt, place_pred):
         regs = arm_regions(body, i)
         for e, reg in regs.items():
